@@ -387,11 +387,10 @@ theorem resize_eq (env : Env) (v : Vec) (xs : List Id) (newLen : Nat) (value : I
 
 /-! ## append -/
 
-theorem mapM_init (ys : List Id) :
-    (I ys).mapM (fun s => match s with | Slot.init id => some id | Slot.hole => none) = some ys := by
+theorem mapM_init (ys : List Id) : (I ys).mapM Slot.id? = some ys := by
   induction ys with
   | nil => rfl
-  | cons y ys ih => simp [List.mapM_cons, ih]
+  | cons y ys ih => simp [List.mapM_cons, ih, Slot.id?]
 
 theorem append_eq (env : Env) (v other : Vec) (xs ys : List Id)
     (hs : v.slots = I xs ++ H (v.cap - v.len)) (hl : xs.length = v.len)
@@ -434,10 +433,11 @@ theorem append_eq (env : Env) (v other : Vec) (xs ys : List Id)
       · have ht : v'.slots.take v.len = I xs := by
           rw [g.slots, ← hl]; have : xs.length = (I xs).length := by simp
           rw [this, List.take_left]
-        have hd : v'.slots.drop (v.len + other.len) = H (v'.cap - (xs.length + ys.length)) := by
-          rw [g.slots, ← hl, hlen]; have : xs.length = (I xs).length := by simp
-          rw [← List.drop_drop, this, List.drop_left]
-          simp [H, List.drop_replicate]; congr 1; omega
+        have hd : v'.slots.drop (v.len + other.len) = H (v'.cap - (v.len + other.len)) := by
+          rw [g.slots, hlen]
+          have e : v.len + other.len = (I xs).length + other.len := by simp [hl]
+          rw [e, ← List.drop_drop, List.drop_left]
+          simp only [H, List.drop_replicate]; congr 1; simp [hl]; omega
         rw [ht, hd]
     · apply Vec.eq_of <;> simp [appendedOther, setLen]
       have hd : other.slots.drop other.len = H (other.cap - other.len) := by
